@@ -14,6 +14,7 @@ from .symexec import Executor, SV, Exc, State, Unsupported, fresh, cls_of, I, B,
 Z3_TIMEOUT_MS = int(os.environ.get("PYVC_Z3_TIMEOUT_MS", "10000"))
 CVC5_TIMEOUT_S = int(os.environ.get("PYVC_CVC5_TIMEOUT_S", "30"))
 RETRY = os.environ.get("PYVC_RETRY", "1") == "1"
+FAIL_FAST = int(os.environ.get("PYVC_FAIL_FAST", "3"))     # after this many undischarged obligations in a unit the others get one attempt each
 
 
 class UnitResult:
@@ -317,8 +318,9 @@ def run_cvc5(smt2, timeout_s=CVC5_TIMEOUT_S):
         os.unlink(path)
 
 
-def discharge(ob, use_cvc5=True, timeout_ms=None, seed=0):
-    """-> dict(verdict, backend, time, detail)"""
+def discharge(ob, use_cvc5=True, timeout_ms=None, seed=0, quick=False):
+    """-> dict(verdict, backend, time, detail).  quick: one quantified attempt, no retries, no second back end -- used once a
+    unit already has FAIL_FAST undischarged obligations (the unit's verdict is decided; the rest only adds detail)"""
     t0 = time.time()
     # stage 1: ground path facts only (most definedness / type / frame obligations need nothing else, and
     # leaving the quantified facts out keeps the instantiation engine quiet); a subset of the assumptions,
@@ -341,7 +343,7 @@ def discharge(ob, use_cvc5=True, timeout_ms=None, seed=0):
     base = timeout_ms or Z3_TIMEOUT_MS
     # relevancy level 1 vs 2 changes which instantiations z3 performs; neither dominates, so both are tried
     attempts = [(base, seed, int(os.environ.get("PYVC_REL1", "2")))]
-    if RETRY:
+    if RETRY and not quick:
         attempts += [(base, seed, 1 if attempts[0][2] == 2 else 2), (3 * base, seed + 7, 2)]
     for (tmo, sd, rel) in attempts:
         s = smt.new_solver(tmo, sd, rel)
@@ -355,7 +357,7 @@ def discharge(ob, use_cvc5=True, timeout_ms=None, seed=0):
             return dict(verdict="discharged", backend="z3", time=time.time() - t0, detail=f"relevancy={rel} seed={sd}")
         if not (r == z3.unknown and ("timeout" in s.reason_unknown() or "canceled" in s.reason_unknown())):
             break       # saturated or sat: a longer run will not help
-    if r == z3.unknown and ground_timed_out and RETRY:
+    if r == z3.unknown and ground_timed_out and RETRY and not quick:
         # the 2 s ground stage may have been starved on a busy machine: give it a real budget before giving up
         s1 = smt.new_solver(5 * 2000, seed + 3)
         for a in relevant_axioms(ground, ob.goal):
@@ -375,7 +377,9 @@ def discharge(ob, use_cvc5=True, timeout_ms=None, seed=0):
         m = None
     verdict = "refuted" if r == z3.sat else ("timeout" if ("timeout" in reason or "canceled" in reason) else "not-proved")
     res = dict(verdict=verdict, backend="z3", time=dt, detail=f"z3: {r} ({reason})", model=model_txt)
-    if use_cvc5:
+    if quick:
+        res["detail"] += "; fail-fast: this unit already had undischarged obligations, single attempt only"
+    if use_cvc5 and not quick:
         t1 = time.time()
         try:
             c5 = run_cvc5(to_smt2(ob.assumptions, ob.goal))
@@ -432,13 +436,19 @@ def discharge_all(obs, use_cvc5):
     slot of the global semaphore, so the number of solvers running at once never exceeds the core count however
     the obligations are spread over units."""
     import json as _json
+    import multiprocessing as _mp
     nproc = int(os.environ.get("PYVC_OB_PROCS", "1"))
+    failed = _mp.get_context("fork").Value("i", 0)      # shared by the forked children of this unit
+
+    def one(ob):
+        with _Slot():
+            d = discharge(ob, use_cvc5, quick=failed.value >= FAIL_FAST)
+        if d["verdict"] != "discharged":
+            with failed.get_lock():
+                failed.value += 1
+        return d
     if nproc <= 1 or len(obs) < 8:
-        out = []
-        for ob in obs:
-            with _Slot():
-                out.append(discharge(ob, use_cvc5))
-        return out
+        return [one(ob) for ob in obs]
     nproc = min(nproc, max(1, len(obs) // 4))
     chunks = [list(range(k, len(obs), nproc)) for k in range(nproc)]
     children = []
@@ -451,8 +461,7 @@ def discharge_all(obs, use_cvc5):
             try:
                 for i in idxs:
                     try:
-                        with _Slot():
-                            out[i] = discharge(obs[i], use_cvc5)
+                        out[i] = one(obs[i])
                     except Exception as e:          # pragma: no cover
                         out[i] = dict(verdict="timeout", backend="z3", time=0.0, detail="checker error: " + repr(e))
                 with os.fdopen(w, "w") as f:
